@@ -6,12 +6,22 @@
   handled values `ok`).  Laws: CRProofs/Codec.lean (once per combinator), CRProofs/CRXml.lean (assembly), CRProofs/CRState.lean
   (`StateXMLNode` / `StateFactory`), CRProofs/Decimal.lean (`float_to_str`).
 
-  Not covered by the theorems (explored by the correspondence and the oracle only): the attributes of `<commonRoad>`, the
-  `location` and `scenarioTags` elements (the body codec is proved correct in ANY context of such foreign elements), the byte
-  level (XML escaping, `str(float)` / `float(str)`, `str(int)` is `Int.repr`), 3-D points.
+  CRProofs/CRNorm.lean (norm = mapR ∘ canon, canon = id on strict values), CRProofs/CRFile.lean (root attributes, location,
+  scenario tags: the whole `<commonRoad>` tree).
+
+  Main theorems: `C01_xml_roundtrip` (body, in any foreign context), `C01_xml_roundtrip_whole_file` (the whole tree),
+  `C01_norm_eq_mapR_canon` / `C01_file_norm_eq_mapR_canon` (what a round trip does, exactly), `C01_norm_close_full` /
+  `C01_file_norm_close_full` (on strictly expressible content only the reals change), `C01_trunc_close` (by less than 10^-d).
+
+  Not covered by the theorems (trusted / sampled by the correspondence and the oracle): the byte level (XML escaping,
+  `str(float)` / `float(str)`, `format(x, ".df")` and `np.format_float_positional` for reprs in exponent notation — parameters
+  of the model; `str(int)` is `Int.repr`), `ScenarioID.from_benchmark_id ∘ str` (the benchmark id is a string here; C13),
+  the 2018b reader branch, lanelet assignment.
 -/
 import CRProofs.CRState
 import CRProofs.Decimal
+import CRProofs.CRNorm
+import CRProofs.CRFile
 import Mathlib.Data.List.Perm.Subperm
 
 namespace CR.X
@@ -98,7 +108,7 @@ theorem C01_field_kind (P : Params) (n : String) :
     (∀ t, normField P (n, .time t) = (n, .time t)) ∧
     (∀ x, normField P (n, .val (.exact x)) = (n, .val (.exact (floatToStr P x)))) ∧
     (∀ a b, normField P (n, .val (.interval a b)) = (n, .val (.interval (floatToStr P a) (floatToStr P b)))) ∧
-    (∀ p, normField P (n, .pos (.point p)) = (n, .pos (.point ⟨floatToStr P p.x, floatToStr P p.y⟩))) ∧
+    (∀ p, normField P (n, .pos (.point p)) = (n, .pos (.point ⟨floatToStr P p.x, floatToStr P p.y, p.z.map (floatToStr P)⟩))) ∧
     (∀ ids, normField P (n, .pos (.lanelets ids)) = (n, .pos (.lanelets ids))) ∧
     (∀ s, ∃ s', normField P (n, .pos (.region s)) = (n, .pos (.region s'))) :=
   ⟨fun _ => rfl, fun _ => rfl, fun _ _ => rfl, fun _ => rfl, fun _ => rfl, fun _ => ⟨_, rfl⟩⟩
@@ -175,7 +185,7 @@ theorem C01_initial_defaults (cfg : Cfg) (C : List String) (Cs : List (List Stri
       C.map (fun a => (a, (lookupField a (s.fields.map (normField cfg.P))).getD (defaultOf a))) := by
   simp only [normInitial, hc]
 
-theorem C01_default_values : defaultOf "position" = .pos (.point ⟨"0.0", "0.0"⟩) ∧ defaultOf "velocity" = .val (.exact "0.0")
+theorem C01_default_values : defaultOf "position" = .pos (.point ⟨"0.0", "0.0", none⟩) ∧ defaultOf "velocity" = .val (.exact "0.0")
     ∧ defaultOf "acceleration" = .val (.exact "0.0") ∧ defaultOf "yaw_rate" = .val (.exact "0.0")
     ∧ defaultOf "slip_angle" = .val (.exact "0.0") ∧ defaultOf "orientation" = .val (.exact "0.0") := by
   refine ⟨?_, ?_, ?_, ?_, ?_, ?_⟩ <;> rfl
@@ -247,36 +257,47 @@ theorem C01_witness_virtual (cfg : Cfg) (s : Sign) : ((signE cfg).norm s).virtua
 theorem C01_dynamic_shape_kept (P : Params) (l w o : Real) (c : Pt) :
     normShape1 P true (.rect l w o c) =
       .rect (decimalToStr P l) (decimalToStr P w) (if isZeroRepr o then "0.0" else decimalToStr P o)
-        (if isZeroRepr c.x && isZeroRepr c.y then zeroPt else ⟨floatToStr P c.x, floatToStr P c.y⟩) := by
+        (if isOrigin c then zeroPt else ⟨floatToStr P c.x, floatToStr P c.y, none⟩) := by
   simp only [normShape1, rectE, ECodec.ofKids, Codec.pair, Codec.child, ECodec.ofText, Prim.decPlain, orientC, centerC,
     Codec.optChild, Bool.not_true, Bool.false_or, id]
-  cases h1 : isZeroRepr o <;> cases h2 : (isZeroRepr c.x && isZeroRepr c.y) <;> simp [ptE, ECodec.ofKids, Codec.iso, Codec.pair, Codec.child,
-    ECodec.ofText, Prim.dec]
+  cases h1 : isZeroRepr o <;> cases h2 : isOrigin c <;> simp [ptE, ptKidsC, ECodec.ofKids, Codec.iso, Codec.pair, Codec.child,
+    Codec.optional, ECodec.ofText, Prim.dec]
 
-/-! ## the clause not proved in one piece -/
+/-! ## norm_close, in one piece -/
 
-/-- Full statement of norm_close: for an expressible document whose ids are non-zero, whose lanelets have a type, whose
-    states list their attributes in class order …, `normDoc` is the original with `floatToStr` applied to exactly the reals
-    the writer formats with `float_to_str` and nothing else changed.  Proved above piecewise (leaves: `C01_int_leaf` …
-    `C01_real_leaf`; states: `C01_field_kind`, `C01_state_fields_perm`, `C01_initial_defaults`; collections and order:
-    `C01_collections_kept`, `C01_order_kept_*`, `C01_ids_kept`; numeric bound: `C01_trunc_close`); what is missing is the single
-    structural map `Doc.mapReals` and the induction that glues the pieces for lanelets (adjacent id 0, empty type set →
-    `unknown`, stop line completion), signs (`virtual`) and lights (direction default), each of which `norm` also rewrites. -/
-def C01_norm_close_full : Prop :=
-  ∀ (cfg : Cfg) (d : Doc), Expressible cfg d →
-    (∀ l, l ∈ d.lanelets → l.types ≠ [] ∧ (∀ a, l.adjL = some a → a.ref ≠ 0) ∧ (∀ a, l.adjR = some a → a.ref ≠ 0)
-      ∧ (∀ s, l.stop = some s → s.pts ≠ none)) →
-    (∀ s, s ∈ d.signs → s.virtual = false) →
-    (normDoc cfg d).lanelets.map (fun l => (l.id, l.pred, l.succ, l.adjL, l.adjR, l.types, l.oneWay, l.bidir, l.signs, l.lights,
-        l.left.marking, l.right.marking)) =
-      d.lanelets.map (fun l => (l.id, l.pred, l.succ, l.adjL, l.adjR, l.types, l.oneWay, l.bidir, l.signs, l.lights,
-        l.left.marking, l.right.marking))
-    ∧ (normDoc cfg d).signs.map (fun s => (s.id, s.virtual, s.elements.map (fun e => e.values))) =
-      d.signs.map (fun s => (s.id, s.virtual, s.elements.map (fun e => e.values)))
-    ∧ (normDoc cfg d).lights.map (fun l => (l.id, l.active, l.cycle.map (fun c => (c.offset, c.elements.map (fun e => (e.duration, e.color)))))) =
-      d.lights.map (fun l => (l.id, l.active, l.cycle.map (fun c => (c.offset, c.elements.map (fun e => (e.duration, e.color))))))
+/-- **What one write → read does, exactly**: `normDoc` is `mapR` (apply `float_to_str` to the reals the writer truncates,
+    `decimal_to_str` to the reals it writes in full, touch nothing else) after `canon` (the discrete completions: adjacent id 0
+    dropped, empty lanelet type set ↦ {unknown}, stop line without points ↦ end points of the bounds, `virtual` ↦ False, light
+    direction / time offset defaults, sign ids through the country table, zero centre / orientation of a dynamic obstacle's
+    shape ↦ the reader's defaults, one-member shape group ↦ its member, attributes of a state in the order of the matching state
+    class, unset attributes of an initial state ↦ 0).  For every precision d ≥ 1. -/
+theorem C01_norm_eq_mapR_canon (cfg : Cfg) (hd : 1 ≤ cfg.P.d) (hne : cfg.classes ≠ []) (d : Doc) (hl : ∀ l, l ∈ d.lanelets → l.Ok) :
+    normDoc cfg d = (d.canon cfg).mapR (realMaps cfg.P) := normDoc_eq cfg hd hne d hl
 
-/-- the part of it that concerns traffic lights' cycles and ids, and sign ids / additional values -/
+/-- **norm_close_full**: on a strictly expressible document (`Doc.Strict`: ids ≥ 1 in references, a lanelet type, stop lines
+    with points, `virtual` False, known sign ids and directions, offsets ≥ 0, groups of ≥ 2 shapes, states listing their
+    attributes in class order, initial states with every attribute set) the round trip changes NOTHING but the reals, each by
+    `float_to_str` (bounded by `C01_trunc_close`) or `decimal_to_str` (same value): all discrete parts identical, the same
+    attributes populated, exact / interval / region unchanged, every collection in the same order. -/
+theorem C01_norm_close_full (cfg : Cfg) (hd : 1 ≤ cfg.P.d) (hne : cfg.classes ≠ []) (d : Doc) (h : d.Strict cfg) :
+    normDoc cfg d = d.mapR (realMaps cfg.P) := by
+  rw [normDoc_eq cfg hd hne d (fun l hl => (h.lanelets l hl).ok), Doc.canon_id cfg d h]
+
+/-- round trip and norm_close together: reading the written file of a strict document yields the document with its reals
+    formatted, nothing else -/
+theorem C01_xml_roundtrip_strict (cfg : Cfg) (hcfg : CfgOk cfg) (hne : cfg.classes ≠ []) (hd1 : 1 ≤ cfg.P.d) (d : Doc)
+    (hd : Expressible cfg d) (hs : d.Strict cfg) (pre post : List Xml) (hpre : Foreign cfg pre) (hpost : Foreign cfg post) :
+    decodeDoc cfg (pre ++ encodeDoc cfg d ++ post) = some (d.mapR (realMaps cfg.P)) := by
+  rw [C01_xml_roundtrip cfg hcfg hne d hd pre post hpre hpost, C01_norm_close_full cfg hd1 hne d hs]
+
+/-- the unset attributes of an initial state read back as 0, the set ones with their formatted value, in the order of
+    `InitialState`; nothing else about an obstacle or planning problem changes (corollary of the per-element equations) -/
+theorem C01_initial_state_close (cfg : Cfg) (hd : 1 ≤ cfg.P.d) (hne : cfg.classes ≠ []) (s : State) :
+    normInitial cfg s = (s.canonInitial cfg).mapR (realMaps cfg.P) :=
+  normInitial_eq cfg (realMaps_zeroFixed cfg.P hd) hne s
+
+/-- (formerly the only proved part) ids, additional values, cycles and `active` of signs and lights are untouched — now a
+    corollary of the element equations `signE_norm_eq`, `lightE_norm_eq` -/
 theorem C01_norm_close_partial (cfg : Cfg) (d : Doc) :
     (normDoc cfg d).signs.map (fun s => (s.id, s.elements.map (fun e => e.values))) =
       d.signs.map (fun s => (s.id, s.elements.map (fun e => e.values)))
@@ -288,19 +309,51 @@ theorem C01_norm_close_partial (cfg : Cfg) (d : Doc) :
   constructor
   · apply List.map_congr_left
     intro s _
-    simp only [Function.comp, signE, ECodec.pmap, List.map_map]
-    congr 1
-    apply List.map_congr_left
-    intro e _
-    simp [signElementE, ECodec.ofKids, Codec.iso, Codec.pair, Codec.many, ECodec.ofText, Prim.str]
+    simp only [Function.comp, signE_norm_eq, Sign.canon, Sign.mapR, List.map_map]
+    rfl
   · apply List.map_congr_left
     intro l _
-    simp only [Function.comp, lightE, ECodec.pmap]
-    cases hc : l.cycle with
-    | none => rfl
-    | some c =>
-      simp only [Option.map, cycleE, ECodec.ofKids, Codec.iso, Codec.pair, Codec.many, List.map_map]
-      congr 3
+    simp only [Function.comp, lightE_norm_eq, Light.canon, Light.mapR]
+    cases l.cycle <;> rfl
+
+/-! ## the whole file tree -/
+
+/-- the state-class table of a file configuration is the one every country's configuration uses -/
+theorem FileCfg.cfgFor_classes (fc : FileCfg) (bid : String) : (fc.cfgFor bid).classes = fc.classes := rfl
+
+/-- **xml_roundtrip for the whole file**: the `<commonRoad>` element the writer builds — root attributes (time step size,
+    version, author, affiliation, source, benchmark id, date), `location` (geo name id, gps, geo transformation, environment
+    with clock time / time of day / weather / underground), `scenarioTags` and the body — read by `XMLFileReader.open`
+    yields `normFile` of the original.  The sign table the reader uses is the one of the country named in the benchmark id
+    (`countryOf`), the date is written and never read. -/
+theorem C01_xml_roundtrip_whole_file (fc : FileCfg) (hcfg : ∀ C, C ∈ fc.classes → ∀ a, a ∈ C → propName (xmlName a) = a)
+    (hne : fc.classes ≠ []) (f : File) (hok : okFile fc f) :
+    decodeFile fc (encodeFile fc f) = some (normFile fc f) :=
+  decodeFile_encodeFile fc f (stateLaws (fc.cfgFor f.header.benchmarkId) hcfg hne) hok
+
+/-- the header comes back as written (the time step size in plain decimal notation), the date is not part of the content -/
+theorem C01_header_kept (fc : FileCfg) (f : File) :
+    (normFile fc f).header = ⟨decimalToStr fc.P f.header.dt, f.header.author, f.header.affiliation, f.header.source, f.header.benchmarkId⟩ :=
+  rfl
+
+/-- the tags come back as the set they are: each known tag once, in the order of the `Tag` enumeration -/
+theorem C01_tags_kept (fc : FileCfg) (f : File) : (normFile fc f).tags = allTags.filter (fun t => f.tags.contains t) := rfl
+
+/-- **norm_close for the whole file**: `normFile = mapR ∘ canon` (a missing location becomes the default location, the tags
+    are put in enumeration order, the body as in `C01_norm_eq_mapR_canon`), and on strict files nothing but the reals changes -/
+theorem C01_file_norm_eq_mapR_canon (fc : FileCfg) (hd : 1 ≤ fc.P.d) (hne : fc.classes ≠ []) (f : File)
+    (hl : ∀ l, l ∈ f.body.lanelets → l.Ok) : normFile fc f = (f.canon fc).mapR (realMaps fc.P) := normFile_eq fc hd hne f hl
+
+theorem C01_file_norm_close_full (fc : FileCfg) (hd : 1 ≤ fc.P.d) (hne : fc.classes ≠ []) (f : File) (h : f.Strict fc) :
+    normFile fc f = f.mapR (realMaps fc.P) := by
+  rw [normFile_eq fc hd hne f (fun l hl => (h.body.lanelets l hl).ok), File.canon_id fc f h]
+
+/-- a cooperative id names its country after "C-"; an unsupported country falls back to Zamunda -/
+example : countryOf ["DEU", "USA", "ZAM"] "C-USA_US101-1_1_T-1" = "USA" ∧ countryOf ["DEU", "USA", "ZAM"] "DEU_Muc-3_1_T-1" = "DEU"
+    ∧ countryOf ["DEU", "USA", "ZAM"] "XYZ_Test-1_1_T-1" = "ZAM" := by decide
+
+/-- the clock text: 7:05 is written "07:05:00" and read back as (7, 5) -/
+example : Prim.clock.fmt (7, 5) = "07:05:00" ∧ Prim.clock.read "07:05:00" = some (7, 5) := by decide
 
 /-! ## non-vacuity -/
 
@@ -336,7 +389,7 @@ theorem C01_realCfg_ok (d : Nat) : CfgOk (realCfg d) ∧ (realCfg d).classes ≠
 
 /-- a state as a trajectory carries it (KS model, one interval value) is well-formed in the sense of `okState` -/
 example : okState (realCfg 4).P false
-    ⟨[("time_step", .time (.exact 3)), ("position", .pos (.point ⟨"1.23456", "-0.5"⟩)), ("steering_angle", .val (.exact "0.01")),
+    ⟨[("time_step", .time (.exact 3)), ("position", .pos (.point ⟨"1.23456", "-0.5", none⟩)), ("steering_angle", .val (.exact "0.01")),
       ("velocity", .val (.interval "9.87654321" "10.0")), ("orientation", .val (.exact "1e-05"))]⟩ := by
   refine ⟨by decide, ?_⟩
   intro f hf
@@ -356,5 +409,70 @@ example : Expressible (realCfg 4) ⟨[], [], [], [], [], [], [], [], []⟩ := by
 example : (∀ c, c ∈ ['1', '2', '3', '4', '5', '6'] → c.isDigit = true) ∧ 4 ≤ ['1', '2', '3', '4', '5', '6'].length := by decide
 
 example : truncChars 4 "-12.3456789".toList = "-12.3456".toList := by decide
+
+/-- a document with a lanelet (adjacent reference, stop line with points), a traffic light and an environment obstacle with a
+    shape group meets `Doc.Strict` -/
+example : Doc.Strict (realCfg 4)
+    ⟨[⟨1, ⟨[⟨"0.0", "3.5", some "0.25"⟩, ⟨"10.0", "3.5", some "0.5"⟩], "solid"⟩, ⟨[⟨"0.0", "0.0", none⟩, ⟨"10.0", "0.0", none⟩], "dashed"⟩,
+        [], [2], some ⟨2, true⟩, none,
+        some ⟨some (⟨"10.0", "3.5", none⟩, ⟨"10.0", "0.0", none⟩), "solid", [], [7]⟩, ["urban"], ["car"], [], [], [7]⟩],
+     [], [⟨7, some ⟨[⟨30, "red"⟩, ⟨5, "green"⟩], 0⟩, some ⟨"9.99", "-0.96", none⟩, "leftRight", false⟩], [], [],
+     [],
+     [], [⟨11, "building", .group [.circ "1.0" ⟨"1.0", "2.0", none⟩, .poly []]⟩], []⟩ := by
+  constructor <;> intro x hx <;> simp only [List.mem_cons, List.not_mem_nil, or_false] at hx
+  · subst hx
+    refine ⟨?_, ?_, by decide, ?_⟩
+    · intro a ha; cases ha; decide
+    · intro a ha; cases ha
+    · intro s hs; cases hs; exact ⟨_, _, rfl, rfl, rfl⟩
+  · subst hx
+    refine ⟨by decide, ?_, ?_⟩
+    · intro p hp; cases hp; rfl
+    · intro c hc; cases hc; decide
+  · subst hx
+    refine ⟨by decide, ?_⟩
+    intro s hs
+    simp only [List.mem_cons, List.not_mem_nil, or_false] at hs
+    rcases hs with rfl | rfl
+    · exact ⟨rfl, fun h => by cases h⟩
+    · intro v hv; cases hv
+
+/-- an off-centre, rotated rectangle and a centred one ("0.0") are strict shapes of a dynamic obstacle -/
+example : (Shape.one (.rect "4.5" "1.8" "-1.125" ⟨"35.6455", "2.125", none⟩)).Strict true ∧
+    (Shape.one (.rect "4.5" "1.8" "0.0" ⟨"0.0", "0.0", none⟩)).Strict true := by
+  constructor
+  · exact ⟨rfl, fun _ => ⟨by decide, fun h => absurd h (by decide)⟩⟩
+  · exact ⟨rfl, fun _ => ⟨fun _ => rfl, fun _ => rfl⟩⟩
+
+/-- the file configuration of the tree under test, cut down to two countries -/
+def realFileCfg (d : Nat) : FileCfg :=
+  ⟨⟨d, [], []⟩, realClasses, ["DEU", "USA", "ZAM"], [("DEU", (["274", "206"], some "274")), ("ZAM", (["274", "206"], some "274")),
+    ("USA", (["R2-1"], some "R2-1"))], "2026-09-29"⟩
+
+/-- a file with a location (geo transformation, environment at 07:05), two tags in enumeration order and an empty body meets
+    the hypotheses of `C01_xml_roundtrip_whole_file` and `C01_file_norm_close_full` -/
+example : let f : File := ⟨⟨"0.1", some "A. Author", some "TUM", some "handcrafted", "DEU_Muc-3_1_T-1"⟩,
+      some ⟨2867714, "48.262333", "11.668775", some ⟨"EPSG:4326", some ⟨"1.5", "-2.0", "0.01", "1.0"⟩⟩,
+        some ⟨7, 5, "morning", "fog", "wet"⟩⟩, ["urban", "intersection"], ⟨[], [], [], [], [], [], [], [], []⟩⟩
+    okFile (realFileCfg 4) f ∧ f.Strict (realFileCfg 4) := by
+  intro f
+  constructor
+  · refine ⟨?_, trivial, ?_⟩
+    · intro v hv
+      cases hv
+      refine ⟨trivial, trivial, trivial, ?_, ?_⟩
+      · intro g hg
+        cases hg
+        exact ⟨⟨trivial, fun a ha => by cases ha; exact ⟨trivial, trivial, trivial, trivial⟩⟩, rfl⟩
+      · intro e he
+        cases he
+        refine ⟨⟨by decide, by decide⟩, ?_, ?_, ?_⟩
+        · show timesOfDay.contains "morning" = true; decide
+        · show weathers.contains "fog" = true; decide
+        · show undergrounds.contains "wet" = true; decide
+    · show (docC _).ok (⟨[], [], [], [], [], [], [], [], []⟩ : Doc)
+      simp [docC, Codec.iso, Codec.pair, Codec.many]
+  · refine ⟨rfl, by decide, ?_⟩
+    constructor <;> intro x hx <;> cases hx
 
 end CR.X
